@@ -437,6 +437,28 @@ def check_sign_release():
                 if not same and got[0] == "ERR_OK":
                     cmp("release build: sign2[H>=q] %s: library verifies its own signature" % names(l),
                         lib_verify(l, H, got[1], Qo), "ERR_OK", l=l, H=H, sig=got[1])
+            # crafted: d such that (k - (S0 + 2^l) d) mod q = u is tiny (u < H - q): the final
+            # subtraction "u - H mod q" is done by zzSubMod with the unreduced H
+            for it in range(int(6 * SCALE) + 1):
+                k = rnd.randrange(1, q)
+                H = rnd.choice([b"\xFF" * n, i2o(q + 1 + rnd.randrange(2 ** 40), n)])
+                R = bign.curve(l).mul(k, bign.base(l))
+                S0 = belt.hash(OID + i2o(R[0], n) + H)[:bign._s0_len(P)]
+                mult = bign.o2i(S0) + 2 ** (top_bit(l) if l == 96 else l)
+                u = rnd.choice([0, 1, bign.o2i(H) - q - 1])
+                d = (k - u) * pow(mult, -1, q) % q
+                if d == 0:
+                    continue
+                Qo = bign.point_to_octets(l, bign.pubkey_calc(l, d))
+                x.reset()
+                got = lib_sign(l, H, d, i2o(k, n))
+                sig, used = bign.sign_from_tape(l, OID, H, d, i2o(k, n), top_bit(l))
+                same = cmp("release build: sign[H>=q, crafted d] %s" % names(l), got, ("ERR_OK", sig, used),
+                           l=l, H=H, d=d, k=k, u=u)
+                if not same and got[0] == "ERR_OK":
+                    cmp("release build: sign[H>=q, crafted d] %s: library verifies its own signature" % names(l),
+                        lib_verify(l, H, got[1], Qo), "ERR_OK", l=l, H=H, sig=got[1],
+                        s1_lt_q=bign.o2i(got[1][bign._s0_len(P):]) < q)
     finally:
         x.close()
         x = saved
@@ -727,6 +749,66 @@ def check_ibs():
                             bign.id_verify_code(l, OID, bytes(h2), H, id_sig, Ro, Qo), l=l)
 
 
+def check_custom_params():
+    """Non-standard long-term parameters: random prime p = 3 (mod 4) (not of the special form
+    2^(2l) - c, so the library picks another field arithmetic), random a, G = (0, yG), b = yG^2.
+    The true group order is unknown, so q is just an odd 2l-bit number: the functions below use q
+    only for range checks / arithmetic mod q, and (q G = O is never needed) the model applies."""
+    for l in LEVELS:
+        n = bign.no_of(l)
+        for it in range(int(3 * SCALE) + 1):
+            while True:
+                p = rnd.getrandbits(2 * l) | (1 << (2 * l - 1)) | 3
+                if bign._is_prime(p):
+                    break
+            yG = rnd.randrange(1, p)
+            P = dict(l=l, p=p, a=rnd.randrange(1, p), b=yG * yG % p, yG=yG, seed=0,
+                     q=rnd.getrandbits(2 * l) | (1 << (2 * l - 1)) | 1)
+            if not bign.curve(P).is_nonsingular():
+                continue
+            q = P["q"]
+            E = bign.curve(P)
+            for d in (1, 2, rnd.randrange(1, q), rnd.randrange(1, q)):
+                Q = E.mul(d, bign.base(P))
+                if Q is None:
+                    continue
+                Qo = bign.point_to_octets(P, Q)
+                x.reset()
+                out = x.out(2 * n)
+                e = call("bignPubkeyCalc", out, pbuf(P), x.buf(i2o(d, n)))
+                cmp("custom_p.pubkey_calc", (e, out.read()), ("ERR_OK", Qo), l=l, p=p, d=d)
+                cmp("custom_p.pubkey_val", call("bignPubkeyVal", pbuf(P), x.buf(Qo)), "ERR_OK", l=l, p=p)
+                cmp("custom_p.keypair_val(d, dG)", call("bignKeypairVal", pbuf(P), x.buf(i2o(d, n)), x.buf(Qo)), "ERR_OK",
+                    l=l, p=hex(p), a=hex(P["a"]), yG=hex(yG), q=hex(q), d=hex(d), Q=Qo)
+                # KeypairGen output fed to KeypairVal
+                t = x.tape(i2o(d, n))
+                priv, pub = x.out(n), x.out(2 * n)
+                e = call("bignKeypairGen", priv, pub, pbuf(P), GEN, t)
+                if d < p:
+                    cmp("custom_p.keypair_gen", (e, priv.read(), pub.read()), ("ERR_OK", i2o(d, n), Qo), l=l)
+                d2 = rnd.randrange(1, q)
+                S = E.mul(d2, Q)
+                if S is not None:
+                    ko = x.out(2 * n)
+                    e = call("bignDH", ko, pbuf(P), x.buf(i2o(d2, n)), x.buf(Qo), 2 * n)
+                    cmp("custom_p.dh", (e, ko.read()), ("ERR_OK", bign.point_to_octets(P, S)), l=l)
+                H = rnd.randbytes(n)
+                H = i2o(bign.o2i(H) % q, n)
+                k = rnd.randrange(1, q)
+                if E.mul(k, bign.base(P)) is None:
+                    continue
+                sig = bign.sign(P, OID, H, d, k)
+                t = x.tape(i2o(k, n))
+                so = x.out(len(sig))
+                e = call("bignSign", so, pbuf(P), x.buf(OID), len(OID), x.buf(H), x.buf(i2o(d, n)), GEN, t)
+                cmp("custom_p.sign", (e, so.read()), ("ERR_OK", sig), l=l)
+                # verification: R = ((S1 + H) mod q) G + (S0 + 2^l) Q computed by the definition
+                # (it is != kG here because q is not the group order: the verdict is what counts)
+                want = bign.verify_code(P, OID, H, sig, Qo)
+                e = call("bignVerify", pbuf(P), x.buf(OID), len(OID), x.buf(H), x.buf(sig), x.buf(Qo))
+                cmp("custom_p.verify", e, want, l=l)
+
+
 # ------------------------------------------------------------------------------------------------
 def report():
     print("\n==== cross-check summary (seed %d, scale %g, %d library calls, %d executor restarts)" %
@@ -747,7 +829,7 @@ def main():
     sel = [a for a in sys.argv[3:]]
     steps = [("params", check_params), ("oid", check_oid), ("keys", check_keys), ("keygen", check_keygen),
              ("sign", check_sign), ("sign2", check_sign2), ("signrel", check_sign_release), ("verify", check_verify), ("dh", check_dh),
-             ("keywrap", check_keywrap), ("ibs", check_ibs)]
+             ("keywrap", check_keywrap), ("ibs", check_ibs), ("custom", check_custom_params)]
     for name, fn in steps:
         if sel and name not in sel:
             continue
